@@ -362,6 +362,8 @@ func (m *fieldMachine) vectors(pool []*big.Int, lens []int) {
 	}
 }
 
+func init() { register("c01", runC01) }
+
 func runC01(args []string) {
 	fs := flag.NewFlagSet("c01", flag.ExitOnError)
 	out := fs.String("out", ".", "output directory")
